@@ -338,6 +338,13 @@ func BuildCte(query *Query, expr *sqlparser.With) error {
 	if expr == nil {
 		return nil
 	}
+	// CTEs are registered in a private copy of the top level object so that
+	// the caller's map is never modified
+	data := make(Map, len(query.data)+len(expr.CTEs))
+	for key, value := range query.data {
+		data[key] = value
+	}
+	query.data = data
 	for _, cte := range expr.CTEs {
 		copy := *cte
 		query.data[copy.ID.String()] = CteEvaluation(func() (any, error) {
